@@ -1,7 +1,7 @@
 """C15 Every request and API call completes with a well-formed gateway response."""
 import re
 
-from vf.rt import P, cond, verdict, fail
+from vf.rt import P, cond, verdict, fail, untraced
 from vf.props.common import mk, WsPeer, SIM_STUBS, SIM_OUTSIDE, blocked_in_close_join
 from vf.props import c12
 
@@ -153,7 +153,7 @@ def requests_by_method_session_transport(fl: int, mi: int, ti: int, ski: int, ui
     pre: (not pending) or ski == 1
     post: _ == ''
     """
-    return verdict(_request(fl, 0, mi, 2, ti, ski, ui, 0, 0, pending))
+    return verdict(untraced(_request, fl, 0, mi, 2, ti, ski, ui, 0, 0, pending))
 
 
 @cond(quick=dict(timeout=170, parts=dict(FL=[0, 1])), thorough=dict(timeout=600, parts=dict(FL=[0, 1])))
@@ -163,7 +163,7 @@ def requests_by_version_jsonp_config(fl: int, ci: int, mi: int, ei: int, ji: int
     pre: 0 <= ski <= 1 and (ci == 0 or ji == 0)
     post: _ == ''
     """
-    return verdict(_request(fl, ci, mi, ei, 1, ski, 0, ji, 0, False))
+    return verdict(untraced(_request, fl, ci, mi, ei, 1, ski, 0, ji, 0, False))
 
 
 @cond(quick=dict(timeout=170, parts=dict(FL=[0, 1])), thorough=dict(timeout=600, parts=dict(FL=[0, 1])))
@@ -172,7 +172,7 @@ def malformed_bodies(fl: int, bi: int, ski: int, pending: bool, ji: int) -> str:
     pre: fl == P.FL and 0 <= bi < len(BODIES) and 1 <= ski <= 6 and ((not pending) or ski == 1) and 0 <= ji <= 1
     post: _ == ''
     """
-    return verdict(_request(fl, 0, 1, 2, 1, ski, 0, ji, bi, pending))
+    return verdict(untraced(_request, fl, 0, 1, 2, 1, ski, 0, ji, bi, pending))
 
 
 APIS = ('send', 'disconnect-sid', 'disconnect-all')
@@ -221,4 +221,4 @@ def api_calls(fl: int, ai: int, si: int, pending: bool, client_gone: bool) -> st
     pre: ((not pending) or si == 0) and ((not client_gone) or 1 <= si <= 2)
     post: _ == ''
     """
-    return verdict(_api(fl, ai, si, pending, client_gone))
+    return verdict(untraced(_api, fl, ai, si, pending, client_gone))
